@@ -41,7 +41,18 @@ type World struct {
 	NullRate int `json:"nullRate,omitempty"`
 	// MaxList bounds default list lengths (default 3).
 	MaxList int `json:"maxList,omitempty"`
+	// ThunkRate: 1 in ThunkRate fields and list elements (by hash of the path) are returned as
+	// deferred values (0 = only where Outcomes say so). For checks without an exact oracle.
+	ThunkRate int `json:"thunkRate,omitempty"`
+	// LooseTypeOf: every isTypeOf answers true for every object value, so an abstract type
+	// without a type resolver resolves to the first possible type the library asks: the order in
+	// which it asks becomes visible in the response. For self-comparison checks only.
+	LooseTypeOf bool `json:"looseTypeOf,omitempty"`
 }
+
+// ElemThunk marks a list element the resolver hands over as a deferred value
+// (func() (interface{}, error)) yielding V; build materialises it, the reference unwraps it.
+type ElemThunk struct{ V interface{} }
 
 // PathKey renders a response path ("a/0/b").
 func PathKey(path []interface{}) string {
@@ -71,7 +82,7 @@ type Res struct {
 // Fails reports whether the resolver itself fails (error / panic, directly or deferred).
 func (r Res) Fails() bool {
 	switch r.Kind {
-	case "err", "valerr", "panic_err", "panic_str", "panic_int", "thunk_err":
+	case "err", "err_foreign", "valerr", "panic_err", "panic_str", "panic_int", "thunk_err":
 		return true
 	}
 	return false
@@ -88,7 +99,7 @@ func (w *World) Resolve(parentType string, fd *model.FieldDef, path []interface{
 			return Res{Kind: o.Kind}
 		case "typednil":
 			return Res{Kind: "val", Val: (*Tok)(nil)}
-		case "err", "panic_err", "panic_str", "panic_int", "thunk_err":
+		case "err", "err_foreign", "panic_err", "panic_str", "panic_int", "thunk_err":
 			return Res{Kind: o.Kind, ErrMsg: "E:" + key}
 		case "valerr":
 			return Res{Kind: o.Kind, Val: w.defVal(fd.Type, key, args, true), ErrMsg: "E:" + key}
@@ -96,9 +107,12 @@ func (w *World) Resolve(parentType string, fd *model.FieldDef, path []interface{
 			return Res{Kind: "thunk", Val: w.defVal(fd.Type, key, args, true)}
 		case "notlist":
 			return Res{Kind: "val", Val: "not-a-list"}
-		case "badleaf", "nan", "inf", "bigint", "badenum", "leafpanic":
+		case "badleaf", "nan", "inf", "bigint", "badenum", "leafpanic", "nantext", "sernan", "sernilptr":
 			return Res{Kind: "val", Val: w.badLeaf(o.Kind, fd.Type)}
 		}
+	}
+	if w.ThunkRate > 0 && w.h(key, "thunk")%uint32(w.ThunkRate) == 0 {
+		return Res{Kind: "thunk", Val: w.defVal(fd.Type, key, args, true)}
 	}
 	return Res{Kind: "val", Val: w.defVal(fd.Type, key, args, true)}
 }
@@ -118,6 +132,12 @@ func (w *World) badLeaf(kind string, t model.TypeRef) interface{} {
 	switch kind {
 	case "leafpanic":
 		return LeafPanic{M: map[string]int{}}
+	case "nantext":
+		return "NaN" // numeric text that denotes no number: Float has no serialisation for it
+	case "sernan":
+		return "SER:NaN" // the custom scalars of built schemas serialise this to NaN ...
+	case "sernilptr":
+		return "SER:nilptr" // ... and this to a typed nil pointer: both mean "no value"
 	case "nan":
 		return math.NaN()
 	case "inf":
@@ -139,10 +159,19 @@ func (w *World) defVal(t model.TypeRef, key string, args map[string]interface{},
 			return nil
 		case "notlist":
 			return "not-a-list"
-		case "badleaf", "nan", "inf", "bigint", "badenum", "leafpanic":
+		case "badleaf", "nan", "inf", "bigint", "badenum", "leafpanic", "nantext", "sernan", "sernilptr":
 			return w.badLeaf(o.Kind, t)
 		}
 	}
+	if !top {
+		if o, ok := w.Outcomes[key]; (ok && o.Kind == "thunk") || (w.ThunkRate > 0 && w.h(key, "ethunk")%uint32(w.ThunkRate) == 0) {
+			return ElemThunk{V: w.plainVal(t, key, args, top)}
+		}
+	}
+	return w.plainVal(t, key, args, top)
+}
+
+func (w *World) plainVal(t model.TypeRef, key string, args map[string]interface{}, top bool) interface{} {
 	if t.NonNull() {
 		return w.defValNN(t.Inner(), key, args, top)
 	}
@@ -242,6 +271,9 @@ func (w *World) IsTypeOf(obj string, value interface{}, path []interface{}) bool
 		return false
 	}
 	t, ok := value.(*Tok)
+	if w.LooseTypeOf {
+		return ok && t != nil
+	}
 	return ok && t != nil && t.Type == obj
 }
 
